@@ -4,7 +4,7 @@
    - segwit helpers: returns exactly what the source of bech32.encode returns for hrp bc/tb, hence (with C11Src) a
      string that decodes back to (witver, program) for every legal pair. *)
 From BHW Require Import Lib.Base Lib.ListAux Model.Helper Model.Bech32M Spec.Bech32 Proofs.Base58 Proofs.Bech32RT
-  Py.Interp Py.Tactics Proofs.PyHelper Proofs.PyBech32 Proofs.PyConvertbits Proofs.PyAddress Model.Ripemd Proofs.PyRipemd.
+  Py.Interp Py.Tactics Proofs.PyHelper Proofs.PyBech32 Proofs.PyConvertbits Proofs.PyAddress Model.Ripemd Proofs.PyRipemd Model.ScriptM Spec.Address Proofs.Address Proofs.PyScript.
 From BHWGen Require Import Consts PyAst.
 Open Scope string_scope.
 Open Scope Z_scope.
@@ -67,10 +67,35 @@ Theorem C05_source_ripemd160 : forall ext fuel data,
   agrees (sem_ripemd__ripemd160 ext fuel [VBytes data]) (rmap VBytes (ripemd160 data)).
 Proof. exact ripemd160_sem. Qed.
 
+(* the four script builders of script.py, through the translated constructor Script.__init__, and the source of
+   raw_serialize: for every hash of the right length the bytes are the standard scriptPubKey templates *)
+Theorem C05_source_script_templates : forall ext fuel h,
+  (List.length h = 20%nat ->
+     (exists v, sem_script__p2pkh_script ext fuel [VBytes h] = Val v /\
+                sem_script__Script__raw_serialize ext fuel [v] = Val (VBytes (p2pkh_spk h))) /\
+     (exists v, sem_script__p2sh_script ext fuel [VBytes h] = Val v /\
+                sem_script__Script__raw_serialize ext fuel [v] = Val (VBytes (p2sh_spk h))) /\
+     (exists v, sem_script__p2wpkh_script ext fuel [VBytes h] = Val v /\
+                sem_script__Script__raw_serialize ext fuel [v] = Val (VBytes (p2wpkh_spk h)))) /\
+  (List.length h = 32%nat ->
+     exists v, sem_script__p2wsh_script ext fuel [VBytes h] = Val v /\
+               sem_script__Script__raw_serialize ext fuel [v] = Val (VBytes (p2wsh_spk h))).
+Proof.
+  intros ext fuel h. destruct (script_templates h) as (H20 & H32 & _).
+  split.
+  - intros Hl. destruct (H20 Hl) as (A & B & C).
+    split; [|split].
+    + eexists. split; [apply p2pkh_script_sem|]. assert (R := raw_serialize_sem ext fuel (p2pkh_script h)). rewrite A in R. exact R.
+    + eexists. split; [apply p2sh_script_sem|]. assert (R := raw_serialize_sem ext fuel (p2sh_script h)). rewrite B in R. exact R.
+    + eexists. split; [apply p2wpkh_script_sem|]. assert (R := raw_serialize_sem ext fuel (p2wpkh_script h)). rewrite C in R. exact R.
+  - intros Hl. eexists. split; [apply p2wsh_script_sem|]. assert (R := raw_serialize_sem ext fuel (p2wsh_script h)). rewrite (H32 Hl) in R. exact R.
+Qed.
+
 Theorem C05_source_translated :
   forallb (fun q => existsb (String.eqb q) translated)
     ["helper.h160_to_p2pkh_address"; "helper.h160_to_p2sh_address"; "helper.h160_to_p2wpkh_address"; "helper.h256_to_p2wsh_address";
-     "ripemd.fi"; "ripemd.rol"; "ripemd.compress"; "ripemd.ripemd160"] = true.
+     "ripemd.fi"; "ripemd.rol"; "ripemd.compress"; "ripemd.ripemd160";
+     "script.Script.__init__"; "script.p2pkh_script"; "script.p2sh_script"; "script.p2wpkh_script"; "script.p2wsh_script"; "script.Script.raw_serialize"] = true.
 Proof. reflexivity. Qed.
 
 Print Assumptions C05_source_p2pkh.
@@ -78,4 +103,5 @@ Print Assumptions C05_source_p2sh.
 Print Assumptions C05_source_segwit.
 Print Assumptions C05_source_ripemd_compress.
 Print Assumptions C05_source_ripemd160.
+Print Assumptions C05_source_script_templates.
 Print Assumptions C05_source_translated.
